@@ -14,7 +14,9 @@ V(S) == IF n < 0 THEN {} ELSE S
 GNext ==
   \E f \in {RandomElement(V(Assigns(NP)))} : \E R \in {RandomElement(V(SUBSET FwdPairs))} :
   \E st \in {RandomElement(V(Styles))} : \E vi \in {RandomElement(V(VarImps))} : \E fm \in {RandomElement(V(FileModes))} :
-  \E so \in {RandomElement(V(SeedOpts))} : \E po \in {RandomElement(V(PruneOpts))} :
+  \E so \in {RandomElement(V(SeedOpts))} : \E r \in {RandomElement(V(1..(Cardinality(PruneOpts) + 3)))} :
+  \* (the three "global disable + routine-level override" options 19..21 are drawn twice as often as the others)
+  \E po \in {IF r <= Cardinality(PruneOpts) THEN r ELSE 19 + ((r - Cardinality(PruneOpts) - 1) % 3)} :
     LET P == MkProject(NP, f, R, st, vi, fm)
     IN /\ n' = n + 1
        /\ IF LegalProject(P) /\ AcyclicProject(P)
